@@ -43,6 +43,7 @@ import (
 	"github.com/prometheus/alertmanager/template"
 	"github.com/prometheus/alertmanager/tracing"
 	"github.com/prometheus/alertmanager/types"
+	"github.com/prometheus/alertmanager/verifhook"
 )
 
 const (
@@ -239,6 +240,8 @@ func (d *Dispatcher) run(it provider.AlertIterator) {
 						continue
 					}
 
+					verifhook.Point("ingest.received", alert.Data)
+
 					ctx := d.ctx
 					if alert.Header != nil {
 						ctx = d.propagator.Extract(ctx, propagation.MapCarrier(alert.Header))
@@ -284,6 +287,7 @@ func (d *Dispatcher) doMaintenance() {
 		d.routeGroupsSlice[i].groups.Range(func(_, el any) bool {
 			ag := el.(*aggrGroup)
 			if ag.destroyed() {
+				verifhook.Point("maint.destroyed", ag)
 				ag.stop()
 				deleted := d.routeGroupsSlice[i].groups.CompareAndDelete(ag.fingerprint(), ag)
 				if deleted {
@@ -297,6 +301,7 @@ func (d *Dispatcher) doMaintenance() {
 					d.aggrGroupsNum.Add(-1)
 					d.metrics.aggrGroups.Set(float64(d.aggrGroupsNum.Load()))
 				}
+				verifhook.Point("maint.deleted", ag)
 			}
 			return true
 		})
@@ -456,6 +461,7 @@ func (d *Dispatcher) groupAlert(ctx context.Context, alert *alert.Alert, route *
 	fp := groupLabels.Fingerprint()
 
 	el, loaded := d.routeGroupsSlice[route.Idx].groups.Load(fp)
+	verifhook.Point("group.loaded", alert)
 	if loaded {
 		ag := el.(*aggrGroup)
 		// Try to insert into the aggrgroup.
@@ -492,6 +498,7 @@ func (d *Dispatcher) groupAlert(ctx context.Context, alert *alert.Alert, route *
 	// function, to make sure that when the run() will be executed the 1st
 	// alert is already there.
 	ag.insert(ctx, alert)
+	verifhook.Point("group.created", ag)
 
 	retries := 0
 	for {
@@ -909,6 +916,7 @@ func (ag *aggrGroup) destroyed() bool {
 
 // flush sends notifications for all new alerts.
 func (ag *aggrGroup) flush(notify func(...*alert.Alert) bool) {
+	verifhook.Point("flush.enter", ag)
 	if ag.empty() {
 		return
 	}
@@ -934,6 +942,7 @@ func (ag *aggrGroup) flush(notify func(...*alert.Alert) bool) {
 	ag.logger.Debug("flushing", "numAlerts", len(alertsSlice), "alerts", alertsSlice)
 
 	if notify(alertsSlice...) {
+		verifhook.Point("flush.notified", ag)
 		ag.recordResolvedEvents(resolvedSlice)
 
 		// Delete all resolved alerts as we just sent a notification for them,
